@@ -1234,6 +1234,25 @@ def _laws(case, ctx):
                 arg = mats[0] if cls == 'fixed' else mats
             _law_suite(ctx, cls, arg, basis, expected_desc, n, k, sigp, sub, 1e-9)
 
+        def build(B=B, rep=rep, mask=mask):
+            if rep == 'rdms':
+                a = RDMs(B.copy(), dissimilarity_measure='euclidean',
+                         pattern_descriptors={'stim': np.array(STIM[:n]), 'name': list(NAMES[:n])},
+                         descriptors={'session': 3})
+                return a, [a.dissimilarities]
+            if rep == 'vectors':
+                a = B[0].copy() if cls == 'fixed' else B.copy()
+                return a, [a]
+            mats = np.zeros((k, n, n))
+            for r in range(k):
+                for e, (i, j) in enumerate(ref.pairs(n)):
+                    mats[r, i, j] = mats[r, j, i] = B[r, e]
+            a = mats[0] if cls == 'fixed' else mats
+            return a, [a]
+        if not (cls == 'fixed' and k > 1):
+            _ownership_pass(ctx, cls, build, rep == 'rdms', basis, expected_desc, n, k, sigp, sub, 1e-9,
+                            fits=False)
+
 
 DTYPES = ('float64', 'float32', 'int64', 'int01')
 PROVS = ('ndarray', 'rdms', 'fancy', 'subset', 'subsample')
@@ -1275,37 +1294,83 @@ def _laws_provenance(case, ctx):
     basis = parent_vals[rows].tolist()                            # the check's own copy, by position
     sigp = 'Model%s|basis=%s,%s' % (cls.capitalize(), 'int' if dtype.startswith('int') else 'float',
                                     {'ndarray': 'array', 'rdms': 'rdms'}.get(prov, 'derived-rdms'))
-    with ctx.guard(sigp, case):
-        expected_desc = {'index': list(range(n))}
+    expected_desc = {'index': list(range(n))}
+    if prov != 'ndarray':
+        expected_desc = {'index': list(range(n)), 'stim': STIM[:n], 'name': NAMES[:n]}
+
+    def build():
+        """(constructor argument, arrays the caller still holds: the argument's own values and those of
+        the stack it was taken from)"""
         if prov == 'ndarray':
             arg = parent_vals[rows].astype(np_dtype)
             if cls == 'fixed':
                 arg = arg[0]
+            return arg, [arg]
+        pdesc = {'stim': np.array(STIM[:n]), 'name': list(NAMES[:n])}
+        src = parent_vals.astype(np_dtype) if prov != 'rdms' else parent_vals[rows].astype(np_dtype)
+        parent = RDMs(src, dissimilarity_measure='euclidean', pattern_descriptors=pdesc,
+                      rdm_descriptors={'sess': list(SESS[:len(src)])}, descriptors={'session': 3})
+        if prov == 'rdms':
+            arg = parent
+        elif prov == 'fancy':
+            arg = parent[rows]
+        elif prov == 'subset':
+            arg = parent.subset('sess', [SESS[r] for r in rows])
         else:
-            pdesc = {'stim': np.array(STIM[:n]), 'name': list(NAMES[:n])}
-            expected_desc = {'index': list(range(n)), 'stim': STIM[:n], 'name': NAMES[:n]}
-            src = parent_vals.astype(np_dtype) if prov != 'rdms' else parent_vals[rows].astype(np_dtype)
-            parent = RDMs(src, dissimilarity_measure='euclidean', pattern_descriptors=pdesc,
-                          rdm_descriptors={'sess': list(SESS[:len(src)])}, descriptors={'session': 3})
-            if prov == 'rdms':
-                arg = parent
-            elif prov == 'fancy':
-                arg = parent[rows]
-            elif prov == 'subset':
-                arg = parent.subset('sess', [SESS[r] for r in rows])
-            else:
-                arg = parent.subsample('sess', [SESS[r] for r in rows])
+            arg = parent.subsample('sess', [SESS[r] for r in rows])
+        return arg, [arg.dissimilarities, parent.dissimilarities, src]
+
+    with ctx.guard(sigp, case):
+        arg, sources = build()
+        if prov != 'ndarray':
             got_rows = np.asarray(arg.get_vectors(), dtype=float)
             if got_rows.shape != (k, L) or not np.array_equal(got_rows, np.array(basis)):
                 ctx.exclude('derived RDMs object does not hold the expected rows (not a model question)')
                 return
         tol = 1e-6 if dtype == 'float32' else 1e-9
+        src_before = [_arr_bits(a) for a in sources]
         m = _law_suite(ctx, cls, arg, basis, expected_desc, n, k, sigp, case, tol)
         if m is not None and cls != 'fixed':
             _provenance_fits(ctx, m, cls, basis, n, k, case, sigp)
+        # reverse direction: predicting / fitting / serialising never changes what the caller holds
+        if [_arr_bits(a) for a in sources] != src_before:
+            ctx.fail(sigp + '|modifies-source', case, 'the RDMs / array the model was built from changed '
+                     'while the model was used')
+    _ownership_pass(ctx, cls, build, prov != 'ndarray', basis, expected_desc, n, k, sigp, case, tol)
 
 
-def _provenance_fits(ctx, model, cls, basis, n, k, case, sigp):
+def _ownership_pass(ctx, cls, build, judged, basis, expected_desc, n, k, sigp, case, tol, fits=True):
+    """construct the model, then overwrite IN PLACE everything the caller still holds (the constructor
+    argument, the stack it was derived from, the raw array): the model must keep the values it was
+    built with.  `judged`: RDMs-object input, which the library itself copies; a plain array MAY be
+    adopted by the constructor (container policy) - that is counted, not judged."""
+    from rsatoolbox import model as M
+    klass = {'fixed': M.ModelFixed, 'select': M.ModelSelect, 'weighted': M.ModelWeighted,
+             'interpolate': M.ModelInterpolate}[cls]
+    sigo = sigp + ',source-overwritten'
+    oc = dict(case, law='ownership')
+    with ctx.guard(sigo, oc):
+        arg, sources = build()
+        m = klass('mod', arg)
+        held = lambda: _arr_bits(m.rdm) + _arr_bits(m.rdm_obj.dissimilarities)
+        before = held()
+        for a in sources:
+            np.copyto(a, (7 - 3 * a).astype(a.dtype))
+        ctx.case(oc)
+        if held() != before:
+            if not judged:
+                ctx.count('array input adopted by the model constructor (allowed by the container policy)')
+                ctx.outcome((cls, 'array adopted'))
+                return
+            ctx.fail('Model%s|%s|aliases-source-rdms' % (cls.capitalize(), sigp.split('|')[1]), oc,
+                     'overwriting the RDMs object the model was built from (or the stack / array behind it) '
+                     'changed model.rdm or model.rdm_obj')
+        _law_suite(ctx, cls, arg, basis, expected_desc, n, k, sigo, oc, tol, model=m)
+        if fits and cls != 'fixed':
+            _provenance_fits(ctx, m, cls, basis, n, k, oc, sigo, light=True)
+
+
+def _provenance_fits(ctx, model, cls, basis, n, k, case, sigp, light=False):
     """the closed-form fitters on such a model, judged by the usual oracles against the check's own
     copy of the basis"""
     from rsatoolbox.rdm import RDMs
@@ -1315,7 +1380,8 @@ def _provenance_fits(ctx, model, cls, basis, n, k, case, sigp):
     _, data_full = _problem(seed, n, 2, 2, 0, [])
     boot = list(range(n - 1, 0, -1)) + [1]
     for fitter in fitters:
-        for method, sigma in (('cosine', 'none'), ('corr', 'none'), ('corr_cov', 'spd')):
+        for method, sigma in ((('cosine', 'none'),) if light else
+                              (('cosine', 'none'), ('corr', 'none'), ('corr_cov', 'spd'))):
             for idx in (None, boot):
                 fc = dict(case, fitter=fitter, method=method, sigma=sigma, idx=idx, n_data=2,
                           normalize=True, desc='index')
@@ -1348,7 +1414,7 @@ def _provenance_fits(ctx, model, cls, basis, n, k, case, sigp):
                         _judge_candidates(fc, ctx, S, theta, fitter)
 
 
-def _law_suite(ctx, cls, arg, basis, expected_desc, n, k, sigp, sub, tol):
+def _law_suite(ctx, cls, arg, basis, expected_desc, n, k, sigp, sub, tol, model=None):
     """build the model from `arg` and judge every model law against `basis` (the check's own copy of
     the RDMs, by position); returns the model"""
     from rsatoolbox.rdm import RDMs
@@ -1359,7 +1425,7 @@ def _law_suite(ctx, cls, arg, basis, expected_desc, n, k, sigp, sub, tol):
              'interpolate': M.ModelInterpolate}[cls]
     if True:
         if True:
-            m = klass('mod', arg)
+            m = klass('mod', arg) if model is None else model
             m2 = M.model_from_dict(m.to_dict())
             if type(m2) is not type(m) or m2.name != m.name or m2.n_param != m.n_param:
                 ctx.fail(sigp + '|dict-roundtrip-changes-class-or-name', sub,
